@@ -11,6 +11,9 @@ import GcArena.Model.Builder
     dst <slice|str|swh|slice-direct|str-direct|swh-direct> <h_size> <h_align> <e_size> <e_align> <len>
         Answer `alloc <size> <align> value <off> header <off> meta <off|-> written <ivals|->
         release <size> <align> <base>` (+ ` vsize <n> valign <n> sliceoff <n>` for dst) or `none`.
+    pair <sweep|weak-shell|drop-sleep|drop-marked|drop-sweep|builder> (sized … | dst <slice|str|swh> …)
+        Answer `alloc <size> <align> release <size> <align>` (C04: what is requested is what is
+        released, on every release history) or `none`.
     L from <size> <align> | L array <esize> <ealign> <n> | L extend <s1> <a1> <s2> <a2>
       | L pad <s> <a> | L padneeded <s> <a> <align>
         Answer `ok …` or `none`.
@@ -200,6 +203,42 @@ def answer (c : Config) (ws : List String) : String :=
         | _, _ => "none"
       else "bad-query"
     | _ => "bad-query"
+  -- C04: alloc / release pairing over a release history (the history does not change the layouts)
+  | "pair" :: hist :: rest =>
+    if ¬ (hist ∈ ["sweep", "weak-shell", "drop-sleep", "drop-marked", "drop-sweep", "builder"]) then "bad-query"
+    else
+      let kind? : Option (PtrKind × Nat) :=
+        match rest with
+        | ["sized", ms, ma, vs, va] =>
+          match nats [ms, ma, vs, va] with
+          | some [ms, ma, vs, va] =>
+            if isType c ⟨ms, ma⟩ ∧ isType c ⟨vs, va⟩ then some (customKind ⟨ms, ma⟩ ⟨vs, va⟩, 0) else none
+          | _ => none
+        | ["dst", kind, hs, ha, es, ea, len] =>
+          match nats [hs, ha, es, ea, len] with
+          | some [hs, ha, es, ea, len] =>
+            let h : Layout := ⟨hs, ha⟩
+            let e : Layout := ⟨es, ea⟩
+            let okKind :=
+              match kind with
+              | "slice" => h == unitLayout
+              | "str" => h == unitLayout && e == byteLayout
+              | "swh" => true
+              | _ => false
+            if okKind && isType c h && isType c e && isType c ⟨c.word, c.word⟩ then
+              some (sliceWithHeaderKind c.maxSize c.word h e, len)
+            else none
+          | _ => none
+        | _ => none
+      match kind? with
+      | none => "bad-query"
+      | some (k, pm) =>
+        match gcAlloc c.maxSize c.hdr k pm with
+        | none => "none"
+        | some p =>
+          match gcDealloc c.maxSize c.hdr k (valuePtr 0 p) pm with
+          | some (_, l) => s!"alloc {p.alloc.size} {p.alloc.align} release {l.size} {l.align}"
+          | none => s!"alloc {p.alloc.size} {p.alloc.align} release panic"
   | ["L", "from", s, a] =>
     match nats [s, a] with
     | some [s, a] => showLayout (fromSizeAlign c.maxSize s a)
